@@ -11,6 +11,7 @@
 package main
 
 import (
+	"archive/tar"
 	"bytes"
 	"context"
 	"crypto/sha256"
@@ -30,6 +31,7 @@ import (
 
 	"github.com/folbricht/desync"
 
+	"verif/harness/fakes"
 	"verif/harness/trace"
 )
 
@@ -56,8 +58,12 @@ type result struct {
 	last   string
 }
 
-func run(args ...string) result {
+func run(args ...string) result { return runIn("", args...) }
+
+// runIn runs the binary with the working directory cwd ("" = the driver's)
+func runIn(cwd string, args ...string) result {
 	cmd := exec.Command(binary, args...)
+	cmd.Dir = cwd
 	cmd.Env = append(os.Environ(), "HOME=/nonexistent")
 	var so, se bytes.Buffer
 	cmd.Stdout, cmd.Stderr = &so, &se
@@ -265,6 +271,19 @@ func runFault(r *rand.Rand, dir string, thorough bool) {
 		{"cache", false, func(url, work string) []string {
 			return []string{"cache", "-n", "3", "-s", url, "-c", mkdir(filepath.Join(work, "cache")), idxFile}
 		}, func(work, _ string) bool { return storeHasAll(filepath.Join(work, "cache"), idx) }},
+		{"cache-to-http", true, func(url, work string) []string { return []string{"cache", "-n", "3", "-s", store, "-c", url, idxFile} },
+			func(_, srvStore string) bool { return storeHasAll(srvStore, idx) }},
+		{"extract-stats", false, func(url, work string) []string {
+			return []string{"extract", "--print-stats", "-n", "3", "-s", url, idxFile, filepath.Join(work, "out")}
+		}, func(work, _ string) bool {
+			b, _ := os.ReadFile(filepath.Join(work, "out"))
+			return bytes.Equal(b, blob)
+		}},
+		{"make-stats", true, func(url, work string) []string {
+			return []string{"make", "--print-stats", "-n", "3", "-m", "1:4:16", "-s", url, filepath.Join(work, "made.caibx"), blobFile}
+		}, func(work, srvStore string) bool {
+			return fromIndex(filepath.Join(work, "made.caibx"), int64(len(blob)), srvStore)
+		}},
 	}
 	for _, d := range defs {
 		for _, k := range ks {
@@ -400,6 +419,147 @@ func runChain(r *rand.Rand, dir string) {
 	sFull()
 }
 
+// ------------------------------------------------------------------------------------------------ config
+// store options from the config file apply to a store however its path is spelled on the command line
+func runConfig(r *rand.Rand, dir string) {
+	secs := map[string][]byte{}
+	blob := mkBlob(r, secs, "a b c")
+	blobFile := filepath.Join(dir, "blob")
+	must(os.WriteFile(blobFile, blob, 0644))
+	ref := mkdir(filepath.Join(dir, "ref"))
+	idx := chunkInto(ref, blob)
+	idxFile := filepath.Join(dir, "blob.caibx")
+	writeIndex(idx, idxFile)
+	parent := mkdir(filepath.Join(dir, "parent"))
+	os.MkdirAll(filepath.Join(parent, "sub"), 0755)
+	store := filepath.Join(parent, "store")
+	cfg := filepath.Join(dir, "config.json")
+	for _, cfgKey := range []string{store, filepath.Join(parent, "*")} { // an absolute path / an absolute glob in the config file
+		must(os.WriteFile(cfg, []byte(fmt.Sprintf(`{"store-options": {"%s": {"uncompressed": true}}}`, cfgKey)), 0644))
+		for _, sp := range [][2]string{{"", store}, {parent, "store"}, {parent, "./store"}, {filepath.Join(parent, "sub"), "../store"}, {parent, "./sub/../store"}} {
+			mkdir(store)
+			res := runIn(sp[0], "--config", cfg, "chop", "-n", "2", "-s", sp[1], idxFile, blobFile)
+			// the store is configured uncompressed: it must hold every chunk as a raw file and no .cacnk file
+			raw, comp := 0, 0
+			filepath.Walk(store, func(p string, info os.FileInfo, err error) error {
+				if err == nil && !info.IsDir() {
+					if strings.HasSuffix(p, ".cacnk") {
+						comp++
+					} else {
+						raw++
+					}
+				}
+				return nil
+			})
+			st, _ := desync.NewLocalStore(store, desync.StoreOptions{Uncompressed: true})
+			all := true
+			for _, c := range idx.Chunks {
+				if _, err := st.GetChunk(c.ID); err != nil {
+					all = false
+				}
+			}
+			w.Emit(J{"ev": "cli", "fam": "config", "cmd": fmt.Sprintf("chop into a store configured uncompressed as %q, named %q from %q", cfgKey, sp[1], sp[0]), "k": 0,
+				"exit": res.exit, "hung": res.hung, "complete": all && comp == 0 && raw > 0, "valid_inputs": true, "out": res.last})
+		}
+	}
+}
+
+// an S3 bucket as the target: one object's requests are refused from the k-th request on
+func runS3Fault(r *rand.Rand, dir string, thorough bool) {
+	secs := map[string][]byte{}
+	blob := mkBlob(r, secs, "a b a c")
+	blobFile := filepath.Join(dir, "blob")
+	must(os.WriteFile(blobFile, blob, 0644))
+	ref := mkdir(filepath.Join(dir, "ref"))
+	idx := chunkInto(ref, blob)
+	idxFile := filepath.Join(dir, "blob.caibx")
+	writeIndex(idx, idxFile)
+	ks := []int{0, 1, 2, 3, 5, 9, 17, 40}
+	if thorough {
+		ks = nil
+		for k := 0; k <= 90; k += 2 {
+			ks = append(ks, k)
+		}
+	}
+	inBucket := func(f *fakes.FakeS3, ix desync.Index) bool {
+		st, _ := desync.NewLocalStore(ref, desync.StoreOptions{})
+		for _, c := range ix.Chunks {
+			b, ok := f.Get("bkt/pfx/" + c.ID.String()[:4] + "/" + c.ID.String() + ".cacnk")
+			if !ok {
+				return false
+			}
+			want, err := st.GetChunk(c.ID)
+			if err != nil {
+				// a chunk of an index made by the command itself: decode and hash
+				d, derr := desync.Decompress(nil, b)
+				if derr != nil || desync.NewChunk(d).ID() != c.ID {
+					return false
+				}
+				continue
+			}
+			wd, _ := want.Data()
+			d, derr := desync.Decompress(nil, b)
+			if derr != nil || !bytes.Equal(d, wd) {
+				return false
+			}
+		}
+		return true
+	}
+	for _, cmdname := range []string{"chop", "make"} {
+		for _, k := range ks {
+			work := mkdir(filepath.Join(dir, "work"))
+			f := fakes.NewFakeS3()
+			n, bad := 0, ""
+			f.OnRequest = func(m, key string) string {
+				if m == "LIST" || !strings.Contains(key, ".cacnk") {
+					return ""
+				}
+				n++
+				if n == k && bad == "" {
+					bad = key
+				}
+				if bad != "" && key == bad {
+					return "403"
+				}
+				return ""
+			}
+			url := "s3+http://" + f.Addr + "/bkt/pfx?lookup=path"
+			var args []string
+			if cmdname == "chop" {
+				args = []string{"chop", "-n", "3", "-s", url, idxFile, blobFile}
+			} else {
+				args = []string{"make", "-n", "3", "-m", "1:4:16", "-s", url, filepath.Join(work, "made.caibx"), blobFile}
+			}
+			cmd := exec.Command(binary, append([]string{"--error-retry", "1"}, args...)...)
+			cmd.Env = append(os.Environ(), "HOME=/nonexistent", "S3_ACCESS_KEY=verif", "S3_SECRET_KEY=verifverif", "S3_REGION=us-east-1")
+			var se bytes.Buffer
+			cmd.Stderr = &se
+			err := cmd.Run()
+			exit := 0
+			if err != nil {
+				exit = 1
+			}
+			complete := false
+			if cmdname == "chop" {
+				complete = inBucket(f, idx)
+			} else if fi, oerr := os.Open(filepath.Join(work, "made.caibx")); oerr == nil {
+				mi, ierr := desync.IndexFromReader(fi)
+				fi.Close()
+				complete = ierr == nil && mi.Length() == int64(len(blob)) && inBucket(f, mi)
+			}
+			last := strings.TrimSpace(se.String())
+			if i := strings.LastIndexByte(last, '\n'); i >= 0 {
+				last = last[i+1:]
+			}
+			if len(last) > 160 {
+				last = last[:160]
+			}
+			w.Emit(J{"ev": "cli", "fam": "s3fault", "cmd": cmdname + " into an S3 bucket", "k": k, "exit": exit, "hung": false, "complete": complete, "valid_inputs": bad == "", "out": last})
+			f.Close()
+		}
+	}
+}
+
 // local target stores whose writes fail (file size limit): a write error inside LocalStore has to reach the exit status
 func runLocalFault(r *rand.Rand, dir string) {
 	secs := map[string][]byte{}
@@ -493,6 +653,9 @@ func runExtract(r *rand.Rand, dir string, n int) {
 		must(os.WriteFile(filepath.Join(seedDir, "other"), other, 0644))
 		writeIndex(chunkInto(seedStore, other), filepath.Join(seedDir, "other.caibx"))
 		args := []string{"extract", "-n", fmt.Sprint(1 + r.Intn(4)), "-s", store}
+		if r.Intn(3) == 0 {
+			args = append(args, "--print-stats")
+		}
 		seedMode := []string{"none", "seed", "seed2", "seeddir"}[r.Intn(4)]
 		switch seedMode {
 		case "seed":
@@ -697,6 +860,63 @@ func runTar(r *rand.Rand, dir string, n int) {
 		res2 := run("untar", "--no-same-owner", catar, dst)
 		w.Emit(J{"ev": "cli", "fam": "tar", "cmd": "tar+untar", "k": i, "exit": res1.exit + res2.exit, "hung": res1.hung || res2.hung, "complete": treeDigest(dst) == want,
 			"valid_inputs": true, "out": res1.last + res2.last})
+		// output that cannot be written completely: the command must not report success
+		resFull := run("tar", "/dev/full", src)
+		w.Emit(J{"ev": "cli", "fam": "tar", "cmd": "tar to /dev/full", "k": i, "exit": resFull.exit, "hung": resFull.hung, "complete": false, "valid_inputs": false, "out": resFull.last})
+		if st, err := os.Stat(catar); err == nil && st.Size() > 4096 {
+			limited := filepath.Join(dir, "limited.catar")
+			os.Remove(limited)
+			kb := int((st.Size() - 100) / 1024) // the last bytes do not fit
+			if kb < 1 {
+				kb = 1
+			}
+			cmd := exec.Command("bash", "-c", fmt.Sprintf("ulimit -f %d; exec '%s' tar '%s' '%s'", kb, binary, limited, src))
+			cmd.Env = append(os.Environ(), "HOME=/nonexistent")
+			lerr := cmd.Run()
+			lst, _ := os.Stat(limited)
+			complete := lst != nil && lst.Size() == st.Size()
+			ex := 0
+			if lerr != nil {
+				ex = 1
+			}
+			w.Emit(J{"ev": "cli", "fam": "tar", "cmd": "tar under a file size limit", "k": i, "exit": ex, "hung": false, "complete": complete, "valid_inputs": false, "out": ""})
+		}
+		// a tar stream as input that ends inside a file body
+		{
+			var tb bytes.Buffer
+			tw := tar.NewWriter(&tb)
+			for j := 0; j < 4; j++ {
+				body := make([]byte, 20000+r.Intn(20000))
+				r.Read(body)
+				tw.WriteHeader(&tar.Header{Name: fmt.Sprintf("f%d", j), Mode: 0644, Size: int64(len(body)), Typeflag: tar.TypeReg, ModTime: time.Unix(1600000000, 0)})
+				tw.Write(body)
+			}
+			tw.Close()
+			full := tb.Bytes()
+			for vi, data := range [][]byte{full, full[:len(full)/2+77]} {
+				tf := filepath.Join(dir, "in.tar")
+				must(os.WriteFile(tf, data, 0644))
+				ts := mkdir(filepath.Join(dir, "tarstore"))
+				ti := filepath.Join(dir, "fromtar.caidx")
+				os.Remove(ti)
+				rs := run("tar", "-i", "--input-format", "tar", "--tar-add-root", "-n", "2", "-m", "1:4:16", "-s", ts, ti, tf)
+				ok := false
+				if vi == 0 && rs.exit == 0 {
+					d3 := mkdir(filepath.Join(dir, "dst3"))
+					ru := run("untar", "-i", "-s", ts, "--no-same-owner", ti, d3)
+					n := 0
+					filepath.Walk(d3, func(p string, info os.FileInfo, err error) error {
+						if err == nil && info.Mode().IsRegular() {
+							n++
+						}
+						return nil
+					})
+					ok = ru.exit == 0 && n == 4
+				}
+				w.Emit(J{"ev": "cli", "fam": "tar", "cmd": []string{"tar -i from a tar stream", "tar -i from a truncated tar stream"}[vi], "k": i, "exit": rs.exit, "hung": rs.hung,
+					"complete": ok, "valid_inputs": vi == 0, "out": rs.last})
+			}
+		}
 		store := mkdir(filepath.Join(dir, "tstore"))
 		caidx := filepath.Join(dir, "t.caidx")
 		res3 := run("tar", "-i", "-n", "3", "-m", "1:4:16", "-s", store, caidx, spell)
@@ -731,6 +951,10 @@ func main() {
 	if has("fault") {
 		runFault(r, mkdir(filepath.Join(*dir, "fault")), *thorough)
 		runLocalFault(r, mkdir(filepath.Join(*dir, "localfault")))
+		runS3Fault(r, mkdir(filepath.Join(*dir, "s3fault")), *thorough)
+	}
+	if has("config") {
+		runConfig(r, mkdir(filepath.Join(*dir, "config")))
 	}
 	if has("chain") {
 		runChain(r, mkdir(filepath.Join(*dir, "chain")))
